@@ -450,11 +450,130 @@ Definition sp_topic_scope (e : entity) : list bytes :=
   ++ flat_map (fun s => [sp_summary_name e s ++ bs "Message"; to_camel (sp_summary_name e s) ++ bs "Topic"])
               (e_summaries e).
 
+(* ---- enum options are distinct names for protobuf ---------------------------------------------------------
+   protoc's rule (the converter applies it since fix 4fb405b): within one enum, the names of the values with the
+   enum-name prefix removed (ignoring case and '_') and the rest put into PascalCase are pairwise distinct.
+   Stated on the declaration: for the statuses (enum <Camel>Status), for every enum of the block and for every
+   inline enum at any depth (enum ToCamel(field)); the value lists are the documented ones. *)
+Definition sp_canonical_distinct (enum_name : bytes) (values : list bytes) : bool :=
+  nodup_bytes (map (fun v => enum_value_name (trim_enum_prefix v (enum_prefix_of enum_name))) values).
+Definition sp_inline_enum_ok (field : bytes) (k : N) (opts : list bytes) : bool :=
+  if k =? 2 then sp_canonical_distinct (to_camel field) (sp_inline_enum_values (to_camel field) opts) else true.
+Fixpoint sp_tfield_enums_ok (t : tfield) : bool :=
+  match t with
+  | TF n (TKInline k _ fs os) _ _ _ => sp_inline_enum_ok n k os && forallb sp_tfield_enums_ok fs
+  | _ => true
+  end.
+Definition sp_ufield_enums_ok (u : ufield) : bool :=
+  match uf_kind u with
+  | KInlineEnum os => sp_inline_enum_ok (uf_name u) 2 os
+  | KInlineTree k fs => sp_inline_enum_ok (uf_name u) k [] && forallb sp_tfield_enums_ok fs
+  | _ => true
+  end.
+Definition sp_enums_ok (e : entity) : bool :=
+  sp_canonical_distinct (sp_name e "Status") (sp_enum_values_n (sp_status_prefix e) (e_status e) (sp_first_number e))
+  && forallb (fun s => match s with
+                       | SEnum n opts => sp_canonical_distinct n (sp_enum_values (to_screaming_snake n ++ [95]) opts)
+                       | _ => true end) (e_schemas e)
+  && forallb sp_ufield_enums_ok (all_ufields e).
+
+(* ---- "all named from the entity name": the exact names ---------------------------------------------------
+   the Status enum holds exactly the documented values, numbered 0, 1, .. in that order; the query service's
+   six messages, each command service and the messages of its methods, the publish topic with its method and
+   message, and one upsert topic per summary carry the names derived from the entity name (and, for commands /
+   summaries, from the name the declaration gives them) *)
+Definition spec_names (e : entity) (cs : list component) : Prop :=
+  (exists vs, has_enum cs (sp_name e "Status") vs
+      /\ map fst vs = sp_enum_values_n (sp_status_prefix e) (e_status e) (sp_first_number e)
+      /\ map snd vs = map N.of_nat (seq 0 (length vs)))
+  /\ (forall s g l v, In s (svcs_in cs 1) -> is_query_svc s = true -> sv_methods s = [g; l; v] ->
+        map mt_in [g; l; v] = map (fun n => sp_query_prefix e ++ bs n) ["GetRequest"; "ListRequest"; "EventsRequest"]%string
+        /\ map mt_out [g; l; v] = map (fun n => sp_query_prefix e ++ bs n) ["GetResponse"; "ListResponse"; "EventsResponse"]%string)
+  /\ Forall2 (fun c s => sv_name s = command_service e c
+                /\ Forall2 (fun m mt => mt_in mt = md_name m ++ bs "Request"
+                               /\ mt_out mt = match md_response m with
+                                              | Some _ => md_name m ++ bs "Response"
+                                              | None => bs ".google.api.HttpBody" end)
+                            (c_methods c) (sv_methods s))
+             (e_commands e) (filter is_command_svc (svcs_in cs 1))
+  /\ (forall p, In p (svcs_in cs 2) -> topic_role p = 4 ->
+        sv_name p = to_camel (sp_camel e ++ bs "Publish") ++ bs "Topic"
+        /\ map mt_name (sv_methods p) = [sp_camel e ++ bs "Event"]
+        /\ map mt_in (sv_methods p) = [sp_camel e ++ bs "EventMessage"])
+  /\ Forall2 (fun sm s => sv_name s = to_camel (sp_summary_name e sm) ++ bs "Topic"
+                /\ map mt_name (sv_methods s) = [sp_summary_name e sm]
+                /\ map mt_in (sv_methods s) = [sp_summary_name e sm ++ bs "Message"])
+             (e_summaries e) (filter (fun s => topic_role s =? 3) (svcs_in cs 2)).
+
+(* ---- "optional query settings (events in get, default status filter)" ------------------------------------
+   the responses of the query service: Get returns the entity's State under the entity's own name - and the
+   events next to it exactly when eventsInGet is set -, List an array of State and the page, Events an array of
+   Event and the page; the status property of State is filterable and its default filters are the enum values
+   of the statuses the declaration lists, in order *)
+Definition sp_events_in_get (e : entity) : bool :=
+  match e_query e with Some q => q_events_in_get q | None => false end.
+Definition sp_default_status (e : entity) : list bytes :=
+  match e_query e with Some q => q_default_status q | None => [] end.
+Definition field_view (f : ofield) : bytes * otype * bool := (f_json f, f_type f, f_repeated f).
+Definition spec_query_settings (e : entity) (cs : list component) : Prop :=
+  let own := to_lower_camel (to_snake (e_name e)) in
+  let state := TObject [] (sp_name e "State") in
+  let event := TObject [] (sp_name e "Event") in
+  let page := (bs "page", TObject (bs "j5.list.v1") (bs "PageResponse"), false) in
+  (forall s g l v, In s (svcs_in cs 1) -> is_query_svc s = true -> sv_methods s = [g; l; v] ->
+     exists mg ml mv, has_msg cs 1 mg /\ m_name mg = mt_out g /\ has_msg cs 1 ml /\ m_name ml = mt_out l
+       /\ has_msg cs 1 mv /\ m_name mv = mt_out v
+       /\ map field_view (m_fields mg) = (own, state, false) :: (if sp_events_in_get e then [(bs "events", event, true)] else [])
+       /\ map field_view (m_fields ml) = [(own, state, true); page]
+       /\ map field_view (m_fields mv) = [(bs "events", event, true); page])
+  /\ (exists m f, has_msg cs 0 m /\ m_name m = sp_name e "State" /\ In f (m_fields m) /\ f_json f = bs "status"
+        /\ f_filter f = Some (map (sp_value_name (sp_status_prefix e)) (sp_default_status e))).
+
+(* ---- the names of the three packages, split by who chose them ----------------------------------------------
+   GENERATED: the names the expansion derives from the entity name and the statuses (README: the six
+   schemas, the status values, the query service with its six messages, the publish topic and its message).
+   USER: the names the declaration itself puts into the same package scopes - block schemas and the values of
+   block enums; request / response messages of the command methods and the command services; the topics and
+   messages of the summaries.  The quantifier asks that the USER's names are pairwise distinct and differ
+   from the generated ones ([user_names_ok], a predicate on the declaration); that the GENERATED names never
+   collide among themselves is a theorem (EntityAcceptProofs: generated_main_nodup, generated_service_nodup,
+   generated_topic_nodup), so the distinctness of the whole scopes ([sp_main_scope] etc. = generated ++ user)
+   is derived, not assumed (main_scope_distinct, service_scope_distinct, topic_scope_distinct). *)
+Definition sp_main_generated (e : entity) : list bytes :=
+  [sp_name e "Keys"; sp_name e "Data"; sp_name e "Status"]
+  ++ sp_enum_values_n (sp_status_prefix e) (e_status e) (sp_first_number e)
+  ++ [sp_name e "State"; sp_name e "EventType"; sp_name e "Event"].
+Definition sp_main_user (e : entity) : list bytes := flat_map sp_schema_names (e_schemas e).
+Definition sp_service_generated (e : entity) : list bytes :=
+  let q := sp_query_prefix e in
+  [q ++ bs "GetRequest"; q ++ bs "GetResponse"; q ++ bs "ListRequest"; q ++ bs "ListResponse";
+   q ++ bs "EventsRequest"; q ++ bs "EventsResponse"; q ++ bs "QueryService"].
+Definition sp_service_user (e : entity) : list bytes :=
+  flat_map (fun c =>
+       flat_map (fun m => (md_name m ++ bs "Request")
+                          :: match md_response m with Some _ => [md_name m ++ bs "Response"] | None => [] end)
+                (c_methods c)
+       ++ [command_service e c]) (e_commands e).
+Definition sp_topic_generated (e : entity) : list bytes :=
+  [sp_camel e ++ bs "EventMessage"; to_camel (sp_camel e ++ bs "Publish") ++ bs "Topic"].
+Definition sp_topic_user (e : entity) : list bytes :=
+  flat_map (fun s => [sp_summary_name e s ++ bs "Message"; to_camel (sp_summary_name e s) ++ bs "Topic"])
+           (e_summaries e).
+Definition disjoint_bytes (a b : list bytes) : bool := forallb (fun x => negb (existsb (bytes_eqb x) b)) a.
+Definition user_names_ok (e : entity) : bool :=
+  nodup_bytes (sp_main_user e) && disjoint_bytes (sp_main_user e) (sp_main_generated e)
+  && nodup_bytes (sp_service_user e) && disjoint_bytes (sp_service_user e) (sp_service_generated e)
+  && nodup_bytes (sp_topic_user e) && disjoint_bytes (sp_topic_user e) (sp_topic_generated e).
+
+(* THE SPECIFICATION, all clauses *)
+Definition C17_spec_all (e : entity) (cs : list component) : Prop :=
+  C17_spec e cs /\ spec_names e cs /\ spec_query_settings e cs.
+
 Definition in_quantifier (e : entity) : bool :=
   (* the options of one enum - the statuses, the options of an enum of the block or of an inline enum -
      are distinct names for protobuf: their canonical names (enum-name prefix removed, PascalCase, protoc's
      rule) differ; `Active` next to `ACTIVE` is one name twice (a positioned compile error since fix 4fb405b) *)
-  decl_enums_ok e
+  sp_enums_ok e
   && name_ok (e_name e) && pkg_ok (e_pkg e)
   && (is_nil (e_base_url e) || (rel_path_ok (e_base_url e) && is_nil (colon_params (e_base_url e))))
   (* 1..n keys of any type *)
@@ -480,9 +599,11 @@ Definition in_quantifier (e : entity) : bool :=
   (* schemas of the block: any identifier is a schema name (`enum level_type`: the compiler keeps it as written) *)
   && forallb (fun s => name_ok (schema_name s) && fields_wf (schema_fields s) && forallb (ref_ok e) (schema_fields s))
              (e_schemas e)
-  (* the type / value / service names of each of the three packages, as documented, are distinct:
-     the names the user chooses do not repeat each other or the entity's own component names *)
-  && nodup_bytes (sp_main_scope e) && nodup_bytes (sp_service_scope e) && nodup_bytes (sp_topic_scope e)
+  (* the names the USER puts into the three package scopes (block schemas and their enum values; method
+     request / response messages and command services; summary topics and messages) do not repeat each
+     other nor a name the expansion generates.  That the whole scopes are then duplicate-free is PROVED
+     (main_scope_distinct etc.): the generated names never collide among themselves *)
+  && user_names_ok e
   (* query settings: events in get, default status filters that name statuses (no list-request
      settings: they are not part of the quantifier, and the real compiler panics on them) *)
   && negb (list_settings e)
